@@ -12,7 +12,7 @@ META = {
                    "R2 end-of-text requirement inside the pattern (contract O1): onig's match-at-0 commits to the first alternative that succeeds and is_match only compares that result's length with the text — alternation order then decides the verdict — so the string compiled by Regex::with_options must carry a per-syntax end anchor around the whole user pattern; a raw user pattern is a violation; "
                    "R3 tables: -regextype names -> RegexType (emacs, grep, posix-basic = ed = sed, posix-extended, anything else rejected, default emacs) and RegexType -> onig Syntax constructor (one distinct syntax per type), -iregex <-> IGNORECASE; "
                    "R4 positional state: the regex type read by -regex/-iregex and written by -regextype lives in storage shared by all recursion levels of the expression parser (reached through a parameter), so a -regextype before or inside a parenthesis governs what follows",
-    "decides": "the match API and subject, whether the whole-string requirement can survive alternation, the name/syntax/case tables, and that the selected syntax is positional across parentheses",
+    "decides": "R2 also: the operand is validated as written first, every construction site stores the derived compile, and under posix-extended an unmatched ) is escaped before wrapping (contract O4); the match API and subject, whether the whole-string requirement can survive alternation, the name/syntax/case tables, and that the selected syntax is positional across parentheses",
     "does_not_decide": "which strings each onig syntax accepts (the language itself)",
 }
 
